@@ -4997,7 +4997,11 @@ _trait_setstate(trait_object *trait, PyObject *args)
         || (delegate_attr_name_index < 0)
         || (delegate_attr_name_index
             >= (int)(sizeof(delegate_attr_name_handlers)
-                     / sizeof(delegate_attr_name_handlers[0])))) {
+                     / sizeof(delegate_attr_name_handlers[0])))
+        /* The getattr and setattr handlers are called unconditionally: the
+           NULL entry that terminates their tables is not a valid choice. */
+        || (getattr_handlers[getattr_index] == NULL)
+        || (setattr_handlers[setattr_index] == NULL)) {
         /* The object fields were filled with borrowed references by
            PyArg_ParseTuple: own them so that deallocation stays balanced. */
         Py_INCREF(trait->py_post_setattr);
